@@ -159,9 +159,13 @@ HWIDS = ['-', '4100', '41004200430044004500', 'ab' * 64, '4100004e4200', '000141
          '4100' * 10 + '0001' + '4200' * 21, '41004200000043004400', '0030']
 
 
+CLOCK_STEPS = [1, 3, 10, 20, 50, 99, 100, 101, 250, 999, 1000, 1001, 5000, 30000, 61000]
+
+
 def universal(rng, nif=None, length=None, with_glob_changes=True):
     """ops for 1..3 interfaces of one responder"""
     nif = nif or rng.choice([1, 1, 2, 3])
+    clocked = rng.random() < 0.5
     mtus = [rng.choice([576, 576, 1500, 1492, 577 + rng.randrange(40), 9216]) for _ in range(nif)]
     macs = IFMACS[:nif]
     if nif >= 2 and rng.random() < 0.15:
@@ -254,6 +258,9 @@ def universal(rng, nif=None, length=None, with_glob_changes=True):
             f += '00' * max(0, 32 - len(f) // 2)  # ... but never shorter than the base header
         elif rng.random() < 0.05:
             f = f + '00' * (mtu - len(f) // 2)    # padded to the full buffer
+        if clocked and rng.random() < 0.5:
+            # time passes between frames (the frame handlers are specified without reference to the clock)
+            ops.append('clock %d' % rng.choice(CLOCK_STEPS))
         ops.append('rx %d %s%s' % (i, f or '-', z))
         if rng.random() < 0.03:
             # the interface MTU is lowered (or restored) while the responder runs; the receive buffer keeps its size
@@ -269,7 +276,28 @@ def universal(rng, nif=None, length=None, with_glob_changes=True):
                                    'glob hwid=%s' % rng.choice(HWIDS)]))
     for i in range(nif):
         ops.append('dump %d' % i)
+    if nif >= 2 and rng.random() < 0.5:
+        ops = with_nesting(rng, ops)
     return ops
+
+
+def with_nesting(rng, ops, p=0.5):
+    """two consecutive frames for different interfaces become one handled WHILE the thread handling the other sleeps inside
+    the core (op `nest`: the per-interface threads of the daemons share the core and sleep with no lock held); interfaces
+    are isolated, so the specified outcome is that of the two frames handled one after the other"""
+    out = []
+    k = 0
+    while k < len(ops):
+        a = ops[k].split()
+        b = ops[k + 1].split() if k + 1 < len(ops) else []
+        if a and b and a[0] == 'rx' and b[0] == 'rx' and a[1] != b[1] and rng.random() < p:
+            out.append('nest %s %d' % (' '.join(b[1:]), rng.choice([1, 1, 1, 2, 3])))
+            out.append(ops[k])
+            k += 2
+        else:
+            out.append(ops[k])
+            k += 1
+    return out
 
 
 # ---------------------------------------------------------------------------------------------------------------
@@ -277,6 +305,43 @@ def universal(rng, nif=None, length=None, with_glob_changes=True):
 # frame type x sender x path x service that the handlers distinguish).  Used by the frame-level checks as an exhaustive
 # slice of the correspondence (and of their predicates): every reachable combination of "what came before" up to depth.
 # ---------------------------------------------------------------------------------------------------------------
+
+def with_faults(rng, ops, malloc=True, send=True, getters=True, rate=0.12, getter_mask=0x1ff & ~3):
+    """a stream of operations with platform faults injected at random points before received frames (fault indices count
+    from the `fault` line): single / several / all allocations refused, transmits refused, interface getters failing,
+    process-wide getters failing, and the faults cleared again; the address and MTU getters (bits 0, 1) fail only when
+    `getter_mask` includes them: the frame-level properties are stated for a station that knows its own address"""
+    out = []
+    kinds = []
+    if malloc:
+        kinds += ['m'] * 7 + ['mall']
+    if send:
+        kinds += ['s'] * 5 + ['sall']
+    if getters:
+        kinds += ['g'] * 3 + ['glob'] * 2
+    kinds += ['clear'] * 2
+    for o in ops:
+        if o.startswith('nest '):
+            continue           # fault indices count calls in program order: no second thread inside a faulty stream
+        if o.startswith('rx ') and rng.random() < rate:
+            k = rng.choice(kinds)
+            if k == 'm':
+                out.append('fault malloc=%s' % ','.join(str(x) for x in sorted(rng.sample(range(1, 12), rng.choice([1, 1, 2, 3])))))
+            elif k == 's':
+                out.append('fault send=%s' % ','.join(str(x) for x in sorted(rng.sample(range(1, 8), rng.choice([1, 1, 2])))))
+            elif k == 'mall':
+                out.append('fault mallocall')
+            elif k == 'sall':
+                out.append('fault sendall')
+            elif k == 'g':
+                out.append('set %s getfail=%d' % (o.split()[1], rng.randrange(512) & getter_mask))
+            elif k == 'glob':
+                out.append('glob %s' % rng.choice(['icon=none', 'fname=none', 'icon=none fname=none hwid=-', 'icon=gen:300:1 fname=gen:40:2']))
+            else:
+                out.append('fault clear')
+        out.append(o)
+    return out
+
 def alphabet(own=OWN):
     A, B, X = STATIONS[0], STATIONS[1], STATIONS[2]
     S1, R1, S2, R2 = '0a0000000001', '0b0000000001', '0a0000000002', '0b0000000002'
